@@ -459,7 +459,7 @@ def summarize(prop, tier, seed, results, level, bounds, assumptions, functions, 
     ev = {
         "property_id": prop, "tier": tier, "seed": int(seed), "level": level,
         "coverage": {
-            "evaluations": agg["queries"] + sum(1 for r in recs if r.get("structural")),
+            "evaluations": agg["queries"] + sum(1 for r in recs if r.get("structural") or "CrossHair" in str(r.get("detail", ""))),
             "distinct_nontrivial": nontrivial,
             "rule": "one evaluation = one solver query (or one value-independent structural obligation decided while tracing); "
                     "distinct_nontrivial = distinct (group, obligation) pairs whose goal went to the solver or to the structural decision "
